@@ -7,8 +7,13 @@ Outside the interval the value is not bounded by them; the natural scale is `|sl
 * `C06_linear_rounding` : for *any* query `x` (in range or extrapolated, either side), with each of the six operations perturbed by
   `|δ| ≤ u ≤ 1/16`:  `|computed − exact| ≤ (7u + 6u²)·(|(y2−y1)·(x−x1)/(x2−x1)| + |y1|)`.
   This is the bound (with a generous factor) the f64 runs of the C06 check hold the extrapolating Linear strategy to.
+* `C06_bilinear_rounding` : the same for the bilinear blend (three nested `calc_frac`, 18 rounded operations, `bilinearFl` of C04Fl) at *any*
+  query `(x, y)` — inside the grid, beyond one side, or beyond a corner.  With `B = 7u + 6u²`, `tx = (x−x1)/(x2−x1)`, `ty = (y−y1)/(y2−y1)`,
+  `z1`, `z2` the exact values of the two x passes and `E1 = B·(|(z21−z11)·tx| + |z11|)`, `E2 = B·(|(z22−z12)·tx| + |z12|)` their rounding
+  bounds:  `|computed − exact| ≤ B·((|z2−z1| + E1 + E2)·|ty| + |z1| + E1) + |1−ty|·E1 + |ty|·E2`.
 -/
 import NdInterp.Props.C01
+import NdInterp.Props.C04Fl
 
 namespace NdInterp
 
@@ -51,6 +56,74 @@ example : |calcFracFl (0 : ℚ) 1 1 3 5 (1/32) 0 0 0 0 (-1/32) - calcFrac 0 1 1 
     (7 * (1/32) + 6 * (1/32) ^ 2) * (|(3 - 1) * ((5 - 0) / (1 - 0))| + |(1 : ℚ)|) :=
   C06_linear_rounding 0 1 1 3 5 (1/32) (1/32) 0 0 0 0 (-1/32) (by norm_num) (by norm_num) (by norm_num)
     (by norm_num [abs_of_nonneg]) (by norm_num) (by norm_num) (by norm_num) (by norm_num) (by norm_num [abs_of_nonneg])
+
+/-- **C06_bilinear_rounding**: rounding of the bilinear blend at any query, inside the grid or extrapolated -/
+theorem C06_bilinear_rounding (x1 x2 y1 y2 z11 z12 z21 z22 x y u d1 d2 d3 d4 d5 d6 e1 e2 e3 e4 e5 e6 f1 f2 f3 f4 f5 f6 : F)
+    (hx : x1 < x2) (hy : y1 < y2) (hu0 : 0 ≤ u) (hu : u ≤ 1/16)
+    (hd1 : |d1| ≤ u) (hd2 : |d2| ≤ u) (hd3 : |d3| ≤ u) (hd4 : |d4| ≤ u) (hd5 : |d5| ≤ u) (hd6 : |d6| ≤ u)
+    (he1 : |e1| ≤ u) (he2 : |e2| ≤ u) (he3 : |e3| ≤ u) (he4 : |e4| ≤ u) (he5 : |e5| ≤ u) (he6 : |e6| ≤ u)
+    (hf1 : |f1| ≤ u) (hf2 : |f2| ≤ u) (hf3 : |f3| ≤ u) (hf4 : |f4| ≤ u) (hf5 : |f5| ≤ u) (hf6 : |f6| ≤ u) :
+    |bilinearFl x1 x2 y1 y2 z11 z12 z21 z22 x y d1 d2 d3 d4 d5 d6 e1 e2 e3 e4 e5 e6 f1 f2 f3 f4 f5 f6
+        - bilinearExact x1 x2 y1 y2 z11 z12 z21 z22 x y| ≤
+      (7 * u + 6 * u ^ 2) *
+          ((|calcFrac x1 z12 x2 z22 x - calcFrac x1 z11 x2 z21 x|
+              + (7 * u + 6 * u ^ 2) * (|(z21 - z11) * ((x - x1) / (x2 - x1))| + |z11|)
+              + (7 * u + 6 * u ^ 2) * (|(z22 - z12) * ((x - x1) / (x2 - x1))| + |z12|)) * |(y - y1) / (y2 - y1)|
+            + |calcFrac x1 z11 x2 z21 x|
+            + (7 * u + 6 * u ^ 2) * (|(z21 - z11) * ((x - x1) / (x2 - x1))| + |z11|))
+        + |1 - (y - y1) / (y2 - y1)| * ((7 * u + 6 * u ^ 2) * (|(z21 - z11) * ((x - x1) / (x2 - x1))| + |z11|))
+        + |(y - y1) / (y2 - y1)| * ((7 * u + 6 * u ^ 2) * (|(z22 - z12) * ((x - x1) / (x2 - x1))| + |z12|)) := by
+  set B := 7 * u + 6 * u ^ 2 with hB
+  have hB0 : 0 ≤ B := by rw [hB]; positivity
+  set E1 := B * (|(z21 - z11) * ((x - x1) / (x2 - x1))| + |z11|) with hE1
+  set E2 := B * (|(z22 - z12) * ((x - x1) / (x2 - x1))| + |z12|) with hE2
+  set ty := (y - y1) / (y2 - y1) with hty
+  unfold bilinearFl bilinearExact
+  simp only
+  set z1 := calcFrac x1 z11 x2 z21 x
+  set z2 := calcFrac x1 z12 x2 z22 x
+  set z1' := calcFracFl x1 z11 x2 z21 x d1 d2 d3 d4 d5 d6
+  set z2' := calcFracFl x1 z12 x2 z22 x e1 e2 e3 e4 e5 e6
+  have r1 : |z1' - z1| ≤ E1 := C06_linear_rounding x1 z11 x2 z21 x u d1 d2 d3 d4 d5 d6 hx hu0 hu hd1 hd2 hd3 hd4 hd5 hd6
+  have r2 : |z2' - z2| ≤ E2 := C06_linear_rounding x1 z12 x2 z22 x u e1 e2 e3 e4 e5 e6 hx hu0 hu he1 he2 he3 he4 he5 he6
+  have hE10 : 0 ≤ E1 := le_trans (abs_nonneg _) r1
+  have hE20 : 0 ≤ E2 := le_trans (abs_nonneg _) r2
+  have b1 : |z1'| ≤ |z1| + E1 := by
+    calc |z1'| = |(z1' - z1) + z1| := by ring_nf
+      _ ≤ |z1' - z1| + |z1| := abs_add_le _ _
+      _ ≤ |z1| + E1 := by linarith
+  have b21 : |z2' - z1'| ≤ |z2 - z1| + E1 + E2 := by
+    calc |z2' - z1'| = |(z2' - z2) + (z2 - z1) + (z1 - z1')| := by ring_nf
+      _ ≤ |z2' - z2| + |z2 - z1| + |z1 - z1'| := abs_add_three _ _ _
+      _ ≤ |z2 - z1| + E1 + E2 := by rw [abs_sub_comm z1 z1']; linarith
+  have s1 : |calcFracFl y1 z1' y2 z2' y f1 f2 f3 f4 f5 f6 - calcFrac y1 z1' y2 z2' y| ≤
+      B * (|(z2' - z1') * ty| + |z1'|) :=
+    C06_linear_rounding y1 z1' y2 z2' y u f1 f2 f3 f4 f5 f6 hy hu0 hu hf1 hf2 hf3 hf4 hf5 hf6
+  have s1' : B * (|(z2' - z1') * ty| + |z1'|) ≤ B * ((|z2 - z1| + E1 + E2) * |ty| + |z1| + E1) := by
+    rw [abs_mul]
+    have : |z2' - z1'| * |ty| ≤ (|z2 - z1| + E1 + E2) * |ty| := mul_le_mul_of_nonneg_right b21 (abs_nonneg _)
+    apply mul_le_mul_of_nonneg_left _ hB0
+    linarith
+  have s2 : |calcFrac y1 z1' y2 z2' y - calcFrac y1 z1 y2 z2 y| ≤ |1 - ty| * E1 + |ty| * E2 := by
+    rw [calcFrac_convex _ _ _ _ _ hy, calcFrac_convex _ _ _ _ _ hy]
+    have e : (1 - ty) * z1' + ty * z2' - ((1 - ty) * z1 + ty * z2) = (1 - ty) * (z1' - z1) + ty * (z2' - z2) := by ring
+    rw [e]
+    calc |(1 - ty) * (z1' - z1) + ty * (z2' - z2)| ≤ |(1 - ty) * (z1' - z1)| + |ty * (z2' - z2)| := abs_add_le _ _
+      _ = |1 - ty| * |z1' - z1| + |ty| * |z2' - z2| := by rw [abs_mul, abs_mul]
+      _ ≤ |1 - ty| * E1 + |ty| * E2 := by
+          have := mul_le_mul_of_nonneg_left r1 (abs_nonneg (1 - ty))
+          have := mul_le_mul_of_nonneg_left r2 (abs_nonneg ty)
+          linarith
+  calc |calcFracFl y1 z1' y2 z2' y f1 f2 f3 f4 f5 f6 - calcFrac y1 z1 y2 z2 y|
+      = |(calcFracFl y1 z1' y2 z2' y f1 f2 f3 f4 f5 f6 - calcFrac y1 z1' y2 z2' y)
+          + (calcFrac y1 z1' y2 z2' y - calcFrac y1 z1 y2 z2 y)| := by ring_nf
+    _ ≤ B * ((|z2 - z1| + E1 + E2) * |ty| + |z1| + E1) + (|1 - ty| * E1 + |ty| * E2) :=
+        le_trans (abs_add_le _ _) (add_le_add (le_trans s1 s1') s2)
+    _ = _ := by ring
+
+/-- non-vacuity: a query beyond the corner of the cell `[0,1]×[0,2]`; with all perturbations zero the rounded blend is the exact one -/
+example : bilinearFl (0 : ℚ) 1 0 2 1 2 3 5 4 (-3) 0 0 0 0 0 0 0 0 0 0 0 0 0 0 0 0 0 0 = bilinearExact 0 1 0 2 1 2 3 5 4 (-3) := by
+  norm_num [bilinearFl, bilinearExact, calcFracFl, calcFrac]
 
 end
 
